@@ -251,7 +251,8 @@ static void init(void) {
 
 static void body(void) {
     int si = vx_choose(NSC);
-    if (vx_opt_int("--mtonly", 0) && !(SC[si].kind == 0 && SC[si].workers)) { vx_obs_u64(7); return; }      /* the schedule-exploring unit: multithreaded scenarios only */
+    if (vx_opt_int("--mtonly", 0) && !(SC[si].kind == 0 && SC[si].workers)) { vx_obs_u64(7); return; }
+    { const char* only = vx_opt("--scen", NULL); if (only && strcmp(only, SC[si].name)) { vx_obs_u64(8); return; } }      /* the schedule-exploring unit: multithreaded scenarios only */
     if (g_N[si] == 0) { vx_fail("%s: scenario makes no allocation through the custom allocator", SC[si].name); return; }
     long k1 = vx_choose((int)g_N[si] + 1);       /* 0 = no fault */
     long k2 = 0;
